@@ -469,7 +469,7 @@ def process_slice(ctx, tasks, acc, ok_build, scan_sel):
 
 
 def run(ctx):
-    ok_build = ctx.lean_stage(["emph_chars"], ["Verif.Props.C04", "Verif.Props.Coalesce", "Verif.Props.Emphasis", "Verif.Props.GfmRender", "Verif.Props.InlineLoop"])
+    ok_build = ctx.lean_stage(["emph_chars"], ["Verif.Props.C04", "Verif.Props.Coalesce", "Verif.Props.Emphasis", "Verif.Props.GfmRender", "Verif.Props.InlineLoop", "Verif.Props.InlineLoop2"])
     import blocks
     blocks.emphasis(ctx)       # resolve_wellNested: emphasis start/end tokens balanced and properly nested for every input
     blocks.inlineloop(ctx)     # inline_loop_order: the inline token list only grows at its end, no two adjacent plain text tokens
